@@ -166,6 +166,15 @@ fn run_case(h: &History, base_calls: u64, k: u64, mode: FaultMode) -> Result<Cas
     out.kind = format!("{:?}", it.backend.lock().fault_kind);
     if let Some(msg) = &failed_msg {
         out.reported = true;
+        // the application ignores the error and commits the transaction it was using: a later
+        // write attempt, which must be refused
+        if let Some(r) = it.commit_live_txn_after_failure() {
+            if r.is_ok() {
+                return Err(format!(
+                    "commit() returned Ok for a transaction in which an operation had already reported a storage failure ({msg})"
+                ));
+            }
+        }
         it.enter_failed_state();
         // (1) writes are refused until reopen
         {
